@@ -46,8 +46,27 @@ func calleeName(cc *ssa.CallCommon) string {
 	return "dynamic:" + operandName(cc.Value)
 }
 
-// call executes a call and returns its results.
+// call executes a call and returns its results; for a traced callee whose last
+// result is an error, the ghost counter fails("F") counts the calls that
+// returned a non-nil error.
 func (fr *frame) call(cc *ssa.CallCommon, st *State, site ssa.Value, pos token.Pos) []T {
+	res := fr.call0(cc, st, site, pos)
+	if _, isBuiltin := cc.Value.(*ssa.Builtin); !isBuiltin {
+		name := calleeName(cc)
+		if fr.c.tracked(name) && len(res) > 0 && res[len(res)-1].Sort == "Iface" {
+			rs := cc.Signature().Results()
+			if rs.Len() == len(res) && types.Identical(rs.At(rs.Len()-1).Type(), errorType) {
+				h := "CntFail_" + sanitize(name)
+				fr.c.R.Heap(h, "Int")
+				cur := fr.c.getHeap(st, h)
+				fr.c.setHeap(st, h, Ite(IsNilIface(res[len(res)-1]), cur, add(cur, IntLit(1))))
+			}
+		}
+	}
+	return res
+}
+
+func (fr *frame) call0(cc *ssa.CallCommon, st *State, site ssa.Value, pos token.Pos) []T {
 	c := fr.c
 	sig := cc.Signature()
 	var args []T
